@@ -2,7 +2,7 @@
    Statements only; proofs in Proofs/OrderVisible.v, Proofs/OrderPruning.v; executable
    models Model/Collator.v (collators, hidden set, subtotal pruning) and
    Model/OrderPruning.v (pruning bases), tied to the code by harness/props/c09.py. *)
-From Coq Require Import List ZArith Bool Lia Arith QArith.
+From Coq Require Import List ZArith Bool Lia Arith QArith String.
 From CC Require Import Base.SortX Spec.OrderSpec Model.Collator Model.OrderPruning
   Proofs.OrderVisible Proofs.OrderPruning.
 Import ListNotations.
